@@ -1,0 +1,297 @@
+//go:build verif
+
+package kessoku
+
+import (
+	"bufio"
+	"fmt"
+	"go/ast"
+	"go/types"
+	"os"
+	"strconv"
+	"strings"
+	"testing"
+)
+
+// Verification driver (build tag verif only): reads one request per line from
+// $VERIF_OPS and writes one canonical answer line to $VERIF_OUT.
+//
+//	D <ret> ; <kind async err : requires : provides/... : structTy : F=ty ...> ; ...
+//	    abstract declaration -> NewGraph/Build dump (type key 0 is context.Context)
+//	V <pre> ... | <op> ...     VarPool history; ops n:<base> t:<TypeName> c:<TypeName>
+func verifNats(s string) []int {
+	var out []int
+	for _, f := range strings.Fields(s) {
+		if n, err := strconv.Atoi(f); err == nil {
+			out = append(out, n)
+		}
+	}
+	return out
+}
+
+func verifErrKind(err error) string {
+	s := err.Error()
+	switch {
+	case strings.Contains(s, "multiple providers provide"):
+		return "dup"
+	case strings.Contains(s, "no provider for struct type"):
+		return "orphan"
+	case strings.Contains(s, "cycle"):
+		return "cycle"
+	case strings.Contains(s, "no initial pools"):
+		return "noInitial"
+	case strings.Contains(s, "no return value provider"):
+		return "noReturn"
+	}
+	return "other:" + s
+}
+
+func verifVarPool(line string) string {
+	parts := strings.SplitN(line, "|", 2)
+	if len(parts) != 2 {
+		return "BAD"
+	}
+	vp := NewVarPool()
+	for _, pre := range strings.Fields(parts[0]) {
+		vp.GetName(pre)
+	}
+	pkg := types.NewPackage("p", "p")
+	named := func(n string) types.Type {
+		return types.NewNamed(types.NewTypeName(0, pkg, n, nil), types.NewStruct(nil, nil), nil)
+	}
+	var outs []string
+	for _, op := range strings.Fields(parts[1]) {
+		kv := strings.SplitN(op, ":", 2)
+		if len(kv) != 2 {
+			return "BAD"
+		}
+		switch kv[0] {
+		case "n":
+			outs = append(outs, vp.GetName(kv[1]))
+		case "t":
+			outs = append(outs, vp.Get(named(kv[1])))
+		case "c":
+			outs = append(outs, vp.GetChannel(named(kv[1])))
+		default:
+			return "BAD"
+		}
+	}
+	return "V " + strings.Join(outs, " ")
+}
+
+func verifDecl(line string) (res string) {
+	defer func() {
+		if r := recover(); r != nil {
+			res = fmt.Sprintf("PANIC %v", r)
+		}
+	}()
+	pkg := types.NewPackage("p", "p")
+	ctxPkg := types.NewPackage(contextPkgPath, contextPkgName)
+	tyCache := map[int]types.Type{}
+	tyID := map[string]int{}
+	ty := func(i int) types.Type {
+		if t, ok := tyCache[i]; ok {
+			return t
+		}
+		var nt types.Type
+		if i == 0 {
+			nt = types.NewNamed(types.NewTypeName(0, ctxPkg, contextTypeName, nil), types.NewInterfaceType(nil, nil), nil)
+		} else {
+			nt = types.NewNamed(types.NewTypeName(0, pkg, fmt.Sprintf("T%d", i), nil), types.NewStruct(nil, nil), nil)
+		}
+		tyCache[i] = nt
+		tyID[nt.String()] = i
+		return nt
+	}
+	ty(0)
+	parts := strings.Split(line, ";")
+	rets := verifNats(parts[0])
+	if len(rets) == 0 {
+		return "BAD"
+	}
+	ret := rets[0]
+	var provs []*ProviderSpec
+	declOf := map[*ProviderSpec]int{}
+	structDecl := map[string]int{}
+	for i, ps := range parts[1:] {
+		f := strings.Split(ps, ":")
+		if len(f) != 5 {
+			return "BAD"
+		}
+		h := verifNats(f[0])
+		if len(h) != 3 {
+			return "BAD"
+		}
+		spec := &ProviderSpec{IsAsync: h[1] == 1, IsReturnError: h[2] == 1, ASTExpr: ast.NewIdent(fmt.Sprintf("P%d", i))}
+		for _, r := range verifNats(f[1]) {
+			spec.Requires = append(spec.Requires, ty(r))
+		}
+		for _, g := range strings.Split(f[2], "/") {
+			var grp []types.Type
+			for _, x := range verifNats(g) {
+				grp = append(grp, ty(x))
+			}
+			if len(grp) > 0 {
+				spec.Provides = append(spec.Provides, grp)
+			}
+		}
+		if h[0] == 1 {
+			sn := verifNats(f[3])
+			if len(sn) == 0 {
+				return "BAD"
+			}
+			spec.Type = ProviderTypeStruct
+			st := ty(sn[0])
+			spec.StructType = st
+			spec.Provides = [][]types.Type{{st}}
+			spec.Requires = []types.Type{st}
+			for k, fl := range strings.Fields(f[4]) {
+				nv := strings.Split(fl, "=")
+				n, _ := strconv.Atoi(nv[1])
+				spec.StructFields = append(spec.StructFields, &StructFieldSpec{Name: nv[0], Type: ty(n), Index: k})
+			}
+			structDecl[st.String()] = i
+		} else {
+			spec.Type = ProviderTypeFunction
+		}
+		declOf[spec] = i
+		provs = append(provs, spec)
+	}
+	build := &BuildDirective{InjectorName: "Init", Return: &Return{Type: ty(ret), ASTTypeExpr: ast.NewIdent("R")}, Providers: provs}
+	md := &MetaData{Package: Package{Name: "p", Path: "p"}, Imports: map[string]*Import{}}
+	vp := NewVarPool()
+	g, err := NewGraph(md, build, vp)
+	if err != nil {
+		return "ERR " + verifErrKind(err)
+	}
+	inj, err := g.Build(md, vp)
+	if err != nil {
+		return "ERR " + verifErrKind(err)
+	}
+	type pg struct{ node, group int }
+	where := map[*InjectorParam]pg{}
+	nodeIdx := map[*node]int{}
+	for ni, nd := range g.nodes {
+		nodeIdx[nd] = ni
+		for gi, r := range nd.returnValues {
+			where[r] = pg{ni, gi}
+		}
+	}
+	stmtNode := func(s InjectorStmt) *node {
+		switch v := s.(type) {
+		case *InjectorProviderCallStmt:
+			for _, nd := range g.nodes {
+				if nd.providerSpec == v.Provider {
+					return nd
+				}
+			}
+		case *InjectorFieldAccessStmt:
+			for _, nd := range g.nodes {
+				if nd.providerSpec != nil && nd.providerSpec.SourceField == v.Field && len(nd.returnValues) > 0 && nd.returnValues[0] == v.ReturnParam {
+					return nd
+				}
+			}
+		}
+		return nil
+	}
+	call := func(s InjectorStmt) string {
+		var args []*InjectorCallArgument
+		var rets []*InjectorParam
+		var head string
+		nd := stmtNode(s)
+		ni := -1
+		flags := ""
+		if nd != nil {
+			ni = nodeIdx[nd]
+			if nd.providerSpec.IsReturnError {
+				flags += "!"
+			}
+			if nd.providerSpec.IsAsync {
+				flags += "~"
+			}
+		}
+		switch v := s.(type) {
+		case *InjectorProviderCallStmt:
+			args, rets = v.Arguments, v.Returns
+			head = fmt.Sprintf("P%d", declOf[v.Provider])
+		case *InjectorFieldAccessStmt:
+			if nd != nil {
+				args = nd.providerArgs
+				head = fmt.Sprintf("F%d.%s", structDecl[nd.providerSpec.StructType.String()], v.Field.Name)
+			}
+			rets = []*InjectorParam{v.ReturnParam}
+		}
+		var as, rs []string
+		for _, a := range args {
+			l := where[a.Param]
+			k := "v"
+			if a.Param.isArg {
+				k = "a"
+			}
+			wm := ""
+			if a.IsWait && a.Param.WithChannel() {
+				wm = "w"
+			}
+			as = append(as, fmt.Sprintf("%s%d.%d%s", k, l.node, l.group, wm))
+		}
+		for _, r := range rets {
+			x := "r"
+			if r.refCounter == 0 {
+				x = "_"
+			}
+			if r.WithChannel() {
+				x += "c"
+			}
+			rs = append(rs, x)
+		}
+		return fmt.Sprintf("%s@%d%s(%s)->(%s)", head, ni, flags, strings.Join(as, ","), strings.Join(rs, ","))
+	}
+	var mainS []string
+	gos := []string{}
+	for _, s := range inj.Stmts {
+		if ch, ok := s.(*InjectorChainStmt); ok {
+			var cs []string
+			for _, c := range ch.Statements {
+				cs = append(cs, call(c))
+			}
+			gos = append(gos, strings.Join(cs, " "))
+		} else {
+			mainS = append(mainS, call(s))
+		}
+	}
+	var argTys []string
+	for _, a := range inj.Args {
+		argTys = append(argTys, strconv.Itoa(tyID[a.Type.String()]))
+	}
+	rp := where[inj.Return.Param]
+	return fmt.Sprintf("OK async=%v err=%v args=[%s] main=[%s] go=[%s] ret=v%d.%d", g.hasAsyncProviders(), inj.IsReturnError,
+		strings.Join(argTys, ", "), strings.Join(mainS, " "), strings.Join(gos, " | "), rp.node, rp.group)
+}
+
+func TestVerifDriver(t *testing.T) {
+	in, err := os.Open(os.Getenv("VERIF_OPS"))
+	if err != nil {
+		t.Skip("VERIF_OPS not set")
+	}
+	defer in.Close()
+	out, err := os.Create(os.Getenv("VERIF_OUT"))
+	if err != nil {
+		t.Fatal(err)
+	}
+	defer out.Close()
+	w := bufio.NewWriter(out)
+	defer w.Flush()
+	sc := bufio.NewScanner(in)
+	sc.Buffer(make([]byte, 1<<20), 1<<20)
+	for sc.Scan() {
+		line := strings.TrimSpace(sc.Text())
+		switch {
+		case strings.HasPrefix(line, "D "):
+			fmt.Fprintln(w, verifDecl(line[2:]))
+		case strings.HasPrefix(line, "V "):
+			fmt.Fprintln(w, verifVarPool(line[2:]))
+		default:
+			fmt.Fprintln(w, "BAD")
+		}
+	}
+}
